@@ -50,6 +50,90 @@ def _chain(c: ClassInfo) -> List[FuncInfo]:
     return out
 
 
+def _covered_on_every_true_path(f: FuncInfo, chain: List[FuncInfo]) -> Optional[Tuple[Set[str], List[str]]]:
+    """attributes that are compared — directly, by deep_eq, or pairwise over sorted children —
+    on *every* outcome where f returns true; None when f is outside the summary fragment.
+    Second component: notes about attributes that are only compared through some function of
+    them (not injective: different values can give equal images)."""
+    from ..summaries import Outside, Summary
+    try:
+        sm = Summary(f.node)
+        dnf = sm.truthy_dnf()
+    except Outside:
+        return None
+    s_, o_ = f.self_name, f.param_names()[1]
+    notes: List[str] = []
+
+    def direct(e: Optional[ast.AST], who: str) -> Optional[str]:
+        """``who.attr`` or ``who.attr.keys()`` -> attr"""
+        if e is None:
+            return None
+        if isinstance(e, ast.Call) and isinstance(e.func, ast.Attribute) and e.func.attr == "keys" and not e.args:
+            e = e.func.value
+        p = attr_path(e)
+        if p and len(p) == 2 and p[0] == who:
+            return p[1]
+        return None
+
+    def attrs_of(conj) -> Set[str]:
+        got: Set[str] = set()
+        none_self: Set[str] = set()
+        none_other: Set[str] = set()
+        for k, v in conj.items():
+            a, b = sm.atoms.operands[k]
+            if k[0] == "Eq" and v:
+                for x, y in ((a, b), (b, a)):
+                    p, q = direct(x, s_), direct(y, o_)
+                    if p and p == q:
+                        got.add(p)
+                if not got & ({direct(a, s_), direct(b, s_)} - {None}):
+                    sa = _side_attrs(a, s_, {}) | _side_attrs(b, s_, {})
+                    ob = _side_attrs(a, o_, {}) | _side_attrs(b, o_, {})
+                    for x in sa & ob:
+                        is_len = all(isinstance(z, ast.Call) and attr_path(z.func) == ("len",) for z in (a, b))
+                        if not is_len:
+                            notes.append("%s is compared only through %s" % (x, unparse(a)[:50]))
+            elif k[0] == "Is" and v:
+                for x, y in ((a, b), (b, a)):
+                    if isinstance(y, ast.Constant) and y.value is None:
+                        if direct(x, s_):
+                            none_self.add(direct(x, s_))
+                        if direct(x, o_):
+                            none_other.add(direct(x, o_))
+            elif k[0] == "truthy" and v and isinstance(a, ast.Call):
+                fn_ = a.func
+                if isinstance(fn_, ast.Attribute) and fn_.attr == "deep_eq" and len(a.args) == 1:
+                    if isinstance(fn_.value, ast.Call) and attr_path(fn_.value.func) == ("super",):
+                        # the parent's comparison: whatever it covers on all of its true paths
+                        idx = chain.index(f) if f in chain else -1
+                        if 0 <= idx < len(chain) - 1:
+                            sub = _covered_on_every_true_path(chain[idx + 1], chain)
+                            if sub is not None:
+                                got |= sub[0]
+                                notes.extend(sub[1])
+                    else:
+                        for x, y in ((fn_.value, a.args[0]), (a.args[0], fn_.value)):
+                            p, q = direct(x, s_), direct(y, o_)
+                            if p and p == q:
+                                got.add(p)
+                elif attr_path(fn_) == ("all",) and a.args:
+                    zips = [z for z in ast.walk(a.args[0]) if isinstance(z, ast.Call) and attr_path(z.func) == ("zip",)
+                            and len(z.args) == 2]
+                    for z in zips:
+                        sa = _side_attrs(z.args[0], s_, {}) | _side_attrs(z.args[1], s_, {})
+                        ob = _side_attrs(z.args[0], o_, {}) | _side_attrs(z.args[1], o_, {})
+                        got |= (sa & ob)
+        got |= (none_self & none_other)
+        return got
+    if not dnf:
+        return set(), notes
+    cov = None
+    for conj in dnf:
+        a_ = attrs_of(conj)
+        cov = a_ if cov is None else (cov & a_)
+    return cov or set(), notes
+
+
 def _only_raises(f: FuncInfo) -> bool:
     body = [s for s in f.node.body if not (isinstance(s, ast.Expr) and isinstance(s.value, ast.Constant))]
     return len(body) == 1 and isinstance(body[0], ast.Raise)
@@ -149,6 +233,20 @@ def run(chk: Check) -> None:
                 chk.ob("R18.1", "%s.%s:compared" % (c.qualname, p), not missing, chain[0].loc(),
                        "deep_eq of %s never compares %s: two nodes differing only there are reported "
                        "equal" % (c.qualname, "/".join(missing)), 2)
+            cov = _covered_on_every_true_path(chain[0], chain)
+            if cov is not None:
+                covered, notes = cov
+                for p, attrs in state:
+                    if (c.name, p) in NOT_COMPARED and attrs[0] not in covered:
+                        continue
+                    missing = [a for a in attrs if a not in covered]
+                    why = "; ".join(sorted({n_ for n_ in notes if any(n_.startswith(a + " ") for a in missing)}))
+                    chk.ob("R18.1", "%s.%s:compared-on-every-true-path" % (c.qualname, p), not missing,
+                           chain[0].loc(),
+                           "deep_eq of %s can return True on a path where %s was not compared (directly, "
+                           "by deep_eq, or pairwise over the sorted children)%s: two nodes differing only "
+                           "there are reported equal" % (c.qualname, "/".join(missing),
+                                                         " — " + why if why else ""), 3)
         # pairing: every comparison pairs the same attribute
         for f in chain:
             s, o = f.self_name, f.param_names()[1]
@@ -515,8 +613,8 @@ def _polarity_by_summary(chk: Check, f, oparam: str) -> Optional[int]:
         a, b = sm.atoms.operands[k]
         two_sided = any(isinstance(x, ast.Name) and (x.id == oparam or "other" in x.id)
                         for part in (a, b) if part is not None for x in ast.walk(part))
-        if not two_sided:
-            return None
+        if not two_sided or any(isinstance(part, ast.Constant) for part in (a, b)):
+            return None         # a presence test on one side, not a comparison of the two
         if k[0] in ("Eq", "Is"):
             return True
         if k[0] == "truthy" and a is not None:
